@@ -4,6 +4,15 @@ import json, os, subprocess
 HERE = os.path.dirname(os.path.dirname(os.path.abspath(__file__)))
 CLAIMED = json.load(open(os.path.join(HERE, "tools", "claims.json")))
 props = [json.loads(l) for l in open(os.path.join(HERE, "properties.jsonl"))]
+import sys, importlib
+sys.path.insert(0, HERE); sys.path.insert(0, "/repo")
+def module_text(pid):
+    """the check's own statement of what it generates and compares (RULE) and of what it assumes (ASSUMPTIONS), kept next to the code"""
+    try:
+        m = importlib.import_module("props." + pid.lower())
+        return str(getattr(m, "RULE", "")), [str(a) for a in getattr(m, "ASSUMPTIONS", [])]
+    except Exception as e:
+        return "", []
 checks = []
 na = []
 for p in props:
@@ -19,8 +28,9 @@ for p in props:
         "evidence_file": f"evidence/{pid}.json",
         "replay_cmd_template": "/venv/bin/python check.py --replay {path}",
         "engine": "hypothesis-runner",
-        "level_claimed": {"category": "exploration", "text": c["text"], "design_ref": f"DESIGN.md section 5, {pid}"},
-        "level_note": c["note"],
+        "level_claimed": {"category": "exploration", "text": (c["text"] + " || Current generator / oracle statement of the check (props/%s.py RULE): " % pid.lower() + module_text(pid)[0])[:6000],
+                          "design_ref": f"DESIGN.md section 5, {pid}"},
+        "level_note": (c["note"] + " || Assumptions stated by the check: " + " | ".join(module_text(pid)[1]))[:4000],
         "technique": c["technique"],
     })
 hook_commits = []
